@@ -342,13 +342,17 @@ func (c *c14) RunCase(w *core.Worker, idx int, seed uint64, res *core.CaseResult
 			{"STATE from INTENDED", &sdcpb.GetDataRequest{Name: run.ds.Name, Path: []*sdcpb.Path{mustPb("/sys")}, DataType: sdcpb.DataType_STATE, Encoding: sdcpb.Encoding_STRING, Datastore: &sdcpb.DataStore{Type: sdcpb.Type_INTENDED}}},
 			{"unknown encoding", &sdcpb.GetDataRequest{Name: run.ds.Name, Path: []*sdcpb.Path{mustPb("/sys")}, DataType: sdcpb.DataType_CONFIG, Encoding: sdcpb.Encoding(77), Datastore: &sdcpb.DataStore{Type: sdcpb.Type_MAIN}}},
 		}
-		for _, b := range bad {
-			got := c.get(srv, b.req)
-			res.Count("requests_must_fail", 1)
-			if got.err == nil {
-				res.Violate("C14/unsupported-request-succeeded", "%s: GetData returned success", b.what)
-			} else if len(got.leaves) > 0 {
-				res.Violate("C14/partial-data-with-error", "%s: error %v but %d leaves were sent", b.what, got.err, len(got.leaves))
+		// every request three times: what the datastore remembers from the first answer must not change the next ones
+		for round := 0; round < 3; round++ {
+			for _, b := range bad {
+				got := c.get(srv, b.req)
+				res.Count("requests_must_fail", 1)
+				nth := []string{"first", "second", "third"}[round]
+				if got.err == nil {
+					res.Violate("C14/unsupported-request-succeeded", "%s (%s time it is asked on this datastore): GetData returned success", b.what, nth)
+				} else if len(got.leaves) > 0 {
+					res.Violate("C14/partial-data-with-error", "%s (%s time): error %v but %d leaves were sent", b.what, nth, got.err, len(got.leaves))
+				}
 			}
 		}
 	}
